@@ -505,6 +505,8 @@ def gen_limit_offset(rng, n):
     """LIMIT / OFFSET around the boundaries 0, n-1, n, n+1 of an n-row result"""
     parts = []
     cands = sorted({0, 1, max(0, n - 1), n, n + 1, max(0, n // 2)})
+    # (LIMIT values near the top of the integer range are exercised by C18's session statements: the select
+    # model keeps LIMIT / OFFSET as unary naturals and cannot evaluate them)
     mode = rng.choice(["none", "none", "limit", "offset", "both", "both", "both_rev"])
     if mode in ("limit", "both", "both_rev"):
         parts.append("LIMIT %d" % rng.choice(cands))
